@@ -39,7 +39,7 @@ func runC02(c *Check, tier string) {
 	ruleKeyContentReadInsideCallback(c, "R02q")
 	ruleNoContentMemo(c, "R02r", "hashing", "execution", "output")
 	// the key of an unchanged target is the same in every process: no map-ordered write into the hasher
-	shareRule(c, "R02p", "every unordered collection is sorted before it is written to a hasher (same obligations as R09a)", 9, "R09a", func(sub *Check) { ruleR09a(sub) }, nil)
+	shareRule(c, "R02p", "every unordered collection is sorted before it is written to a hasher (same obligations as R09a)", 7, "R09a", func(sub *Check) { ruleR09a(sub) }, nil)
 }
 
 // R02g: the result writer always stores (a no-op rebuild can only hit on what the last successful
